@@ -56,6 +56,15 @@ CHECKS = {
         'note': _NOTE + ' This check also decides the end-to-end half of C06 (flux = sum F R, errors in quadrature).',
         'technique': 'TLA+ spec (order_to_match permutation algebra + exact convolution) + TLC exhaustive; replay through convolve_model_dir on real packages of both formats',
     },
+    'C09': {
+        'text': 'Post.tla (on FitSession): the algorithm layer is FitInfo.filter_table\'s index arithmetic (subset of a table by the kept names, argsort(argsort(names))); TLC checks for 4 sources x record lengths 0..4 x 8 selectors x all 24 '
+                'parameter-file row orders that with a name-sorted table the row attached to fit i is the row of the model named in fit i (RowsFollowRanking) and that without the sort this fails exactly when the file is not already sorted (SortIsNeeded).  '
+                'Per (source, record, selector) the spec emits every model\'s chi^2, A_V, scale and parameter row; replay runs write_parameters, extract_parameters, write_parameter_ranges and FitInfo.filter_table on real packages whose parameter file '
+                'is in a random row order with padded names, with file / object / list input and optional additional-parameter dictionaries, and compares every printed cell by model name (rows in chi^2 order, the n best, n_data, n_fits, min/best/max, zero-fit placeholder).',
+        'ref': 'DESIGN.md section 6 C09',
+        'note': _NOTE + ' Printed precision (4 significant digits); exact chi^2 ties at the cut / at rank 1 relax the min/max / best comparison of non-chi^2 columns.',
+        'technique': 'TLA+ spec (permutation algebra of filter_table on FitSession/FitKernel) + TLC exhaustive; replay through the three listing functions',
+    },
     'C10': {
         'text': 'FitSession.tla is the main machine: the data file written line by line, fit() as the code\'s loop (ReadLine -> skip | FitKeep -> AppendRec, a line with < 3 columns ends the input), '
                 'reading the file back, post-processing calls (3 functions x file | object | list input x selectors) and filter_output; fits come from FitKernel, selection from Select.  TLC checks '
